@@ -8,7 +8,8 @@ M2 (`KmipModel/Prim.lean`, Python-faithful primitives).  One JSON object per inp
       {"ok":false}
       T = {"t":tag,"k":kind,"v":value} | {"t":tag,"s":[T…]};  numbers are decimal strings, byte/text values hex
       with "env":true the response-envelope predicate `Kmip.Envelope.faults` is evaluated on the tree
-      ("reqver":[major,minor] = protocol version of the decoded request, or null) and "faults":[…] is added
+      ("reqver":[major,minor] = protocol version of the decoded request, or null) and "faults":[…] is added,
+      and "composed":B — the tree is exactly what `Kmip.Envelope.buildResponse` composes from its own contents
   {"op":"enc","ty":N,"tag":N,"v":V}
       V = decimal string (ty 2,3,4,5,9,10) | bool (6) | [code points] (7) | hex (8)
       {"constructible":B,"py":{"ok":H}|{"err":E},"pyre":H|null,"spec":H|null}
@@ -124,6 +125,40 @@ def errName : EncErr → String
 def derrName : DecErr → String
   | .short => "short" | .tag => "tag" | .type => "type" | .length => "length" | .pad => "pad" | .value => "value"
 
+/-- read a response tree back into the arguments of `Kmip.Envelope.buildResponse` and compose it again: true iff
+the tree is exactly what the transcription of `_process_batch` / `_build_response` composes from those arguments -/
+def recomposes (i : Item) : Bool :=
+  open Kmip.Envelope in
+  match i with
+  | .struct _ (.struct _ hk :: items) =>
+    let pv := kidsOf (find tProtocolVersion hk)
+    match pv.bind (fun ks => intOf (find tProtocolVersionMajor ks)),
+          pv.bind (fun ks => intOf (find tProtocolVersionMinor ks)), find tTimeStamp hk with
+    | some a, some b, some (.prim _ (.dateTime now)) =>
+      let rs : List (Option ItemResult) := items.map (fun it =>
+        match it with
+        | .struct _ ks =>
+          let op := enumOf (find tOperation ks)
+          let bid := match find tUniqueBatchItemID ks with
+            | some (.prim _ (.byteString x)) => some x
+            | _ => none
+          match enumOf (find tResultStatus ks) with
+          | some 0 =>
+            (match find tResponsePayload ks with
+             | some p => some ⟨op, bid, .success p⟩
+             | none => none)
+          | some st =>
+            (match enumOf (find tResultReason ks), find tResultMessage ks with
+             | some r, some (.prim _ (.textString m)) => some ⟨op, bid, .failure st r m⟩
+             | _, _ => none)
+          | none => none
+        | _ => none)
+      if rs.all Option.isSome then
+        encode (buildResponse (a, b) now (rs.filterMap id)) == encode i
+      else false
+    | _, _, _ => false
+  | _ => false
+
 def step (line : String) : String :=
   match Json.parse line with
   | .error e => s!"bad-json {e}"
@@ -144,7 +179,8 @@ def step (line : String) : String :=
               match a[0]!.getInt?, a[1]!.getInt? with
               | .ok x, .ok y => pure (some (x, y))
               | _, _ => throw "reqver")
-            pure [("faults", Json.arr ((Kmip.Envelope.faults reqver i).map Json.str).toArray)])
+            pure [("faults", Json.arr ((Kmip.Envelope.faults reqver i).map Json.str).toArray),
+                  ("composed", Json.bool (recomposes i))])
           pure (Json.mkObj ([("ok", Json.bool true), ("residue", Json.num rest.length),
                             ("canonical", Json.bool i.canonical), ("tree", jItem i),
                             ("reencode", hex (encode i.canon))] ++ extra))
